@@ -99,6 +99,36 @@ fn alphabet_ext(vt: VariantType) -> Vec<(String, Variant)> {
     }
 }
 
+/// JSON text of `v` with the members of every object in reverse order (a JSON object is an
+/// unordered collection: a reader must not depend on the order its own writer uses).
+fn json_reversed(v: &Value, out: &mut String) {
+    match v {
+        Value::Object(m) => {
+            out.push('{');
+            for (i, (k, x)) in m.iter().rev().enumerate() {
+                if i > 0 {
+                    out.push(',');
+                }
+                out.push_str(&serde_json::to_string(k).unwrap());
+                out.push(':');
+                json_reversed(x, out);
+            }
+            out.push('}');
+        }
+        Value::Array(a) => {
+            out.push('[');
+            for (i, x) in a.iter().enumerate() {
+                if i > 0 {
+                    out.push(',');
+                }
+                json_reversed(x, out);
+            }
+            out.push(']');
+        }
+        other => out.push_str(&serde_json::to_string(other).unwrap()),
+    }
+}
+
 /// All serde entry points for one value; returns (key suffix, what) failures.
 pub fn check_variant(v: &Variant) -> Vec<(String, String)> {
     let mut out = Vec::new();
@@ -126,6 +156,11 @@ pub fn check_variant(v: &Variant) -> Vec<(String, String)> {
                 check("from_value", serde_json::to_value(v).map_err(|e| e.to_string()).and_then(|val| serde_json::from_value::<Variant>(val).map_err(|e| e.to_string())));
                 // pretty-printed / escaped text is still the same JSON
                 check("from_str_pretty", serde_json::to_string_pretty(v).map_err(|e| e.to_string()).and_then(|t| serde_json::from_str::<Variant>(&t).map_err(|e| e.to_string())));
+                check("from_str_members_reversed", serde_json::to_value(v).map_err(|e| e.to_string()).and_then(|val| {
+                    let mut t = String::new();
+                    json_reversed(&val, &mut t);
+                    serde_json::from_str::<Variant>(&t).map_err(|e| format!("{} [{}]", e, t.chars().take(100).collect::<String>()))
+                }));
             }
         }
     }
